@@ -376,9 +376,14 @@ class Misorientation(Rotation):
         [ 0.      1.      0.      0.    ]]
         """
         Gl, Gr = self._symmetry
-        symmetry_pairs = iproduct(Gl, Gr)
+        # Only proper operations map a (mis)orientation to an equivalent
+        # (mis)orientation
+        Gl_proper, Gr_proper = Gl[~Gl.improper], Gr[~Gr.improper]
+        symmetry_pairs = iproduct(Gl_proper, Gr_proper)
         if verbose:
-            symmetry_pairs = tqdm(symmetry_pairs, total=Gl.size * Gr.size)
+            symmetry_pairs = tqdm(
+                symmetry_pairs, total=Gl_proper.size * Gr_proper.size
+            )
 
         orientation_region = OrientationRegion.from_symmetry(Gl, Gr)
         o_inside = self.__class__.identity(self.shape)
